@@ -1,28 +1,28 @@
-\* C06 thorough (safety, 2 nodes, all fault kinds): 2 ids, clock 0..1, 2 CAS, 1 fault (garbage packet,
-\* junk push/pull, partition, restart), blocking watcher on node 1.
+\* C04 with state-change locks: 2 nodes, one lockable partition, clock 0..2, retention 1 s, 3 CAS
+\* (heartbeat / state change / removal / lock toggle on any node), every packet ever gossiped deliverable forever.
 CONSTANTS
   N = 2
-  NI = 2
+  NI = 1
   NK = 1
-  MaxClock = 1
-  Retention = 0
+  MaxClock = 2
+  Retention = 1
   T = 1
-  MaxCas = 2
-  MaxFaults = 1
+  MaxCas = 3
+  MaxFaults = 0
   LiveStates = {"ACTIVE"}
   WatchNodes = {1, 2}
-  HoldNodes = {1}
-  AllowRestart = TRUE
-  AllowGarbage = TRUE
-  AllowPartition = TRUE
-  AllowJunkPP = TRUE
+  HoldNodes = {}
+  AllowRestart = FALSE
+  AllowGarbage = FALSE
+  AllowPartition = FALSE
+  AllowJunkPP = FALSE
   GateNodes = {}
   InboxCap = 1
   VersionTest = TRUE
   KeyTest = TRUE
   MaxDel = 0
   ObsoleteTimeout = 1
-  LockKeys = {}
+  LockKeys = {1}
   ConsumeNet = FALSE
   Ideal = TRUE
   Ghost = TRUE
